@@ -265,4 +265,720 @@ Section Proofs.
       + rewrite (inv_ntid _ I) in Hi by auto. discriminate.
       + rewrite upd_other by auto. apply (inv_ntid _ I). auto.
   Qed.
+
+  (* ---------- one step of any thread preserves the invariant *)
+  Lemma inv_step_lookup st i t :
+    Inv st -> threads st i = Some t -> tkind t = KLookup -> Inv (stepT st i t).
+  Proof.
+    intros I Hi Hk.
+    destruct (inv_threads _ I _ _ Hi) as [A B]. rewrite Hk in B.
+    assert (PUT : forall t', tkind t' = KLookup -> tc t' = tc t ->
+                  lk_ok (R st) (cur st) (quiet st) t' -> Inv (put st i t')).
+    { intros t' K1 K2 K3. eapply inv_put_lookup; eauto. rewrite K2. exact A. }
+    unfold step_thread.
+    destruct B as [Hc Htc Hv|Hc Htc Hv|Hc Htc Hv|vs Hc Htc Hv Hne Hcs|Hc Htc Hv|Hc Htc Hv
+                  |vs dn todo Hc Htc Hv Hsp Hcs|vs Hc Htc Hv Hne Hcs|vs Hc Htc Hv Hne Hcs
+                  |vs Hc Htc Hv Hcs|vs Hc Htc Hv Hcs|Hc].
+    - (* S0: ReadPtr *)
+      rewrite Hc. simpl. eapply inv_put_lookup; eauto.
+      + apply S1; simpl; auto. discriminate.
+      + simpl. intros c E. inversion E. subst. apply (inv_cur _ I).
+    - (* S1: Get *)
+      rewrite Hc. simpl. destruct (tc t) as [c|] eqn:Etc; [|congruence].
+      destruct (dget (heap st c) (tkey t)) as [vs|] eqn:Eg.
+      + apply PUT; simpl; auto. eapply S2h; simpl; eauto; try congruence.
+        * eapply (inv_nonempty _ I); eauto.
+        * intros E Hq. assert (Ec : c = cur st) by (simpl in E; congruence). subst c. apply (inv_fresh _ I Hq _ _ Eg).
+      + apply PUT; simpl; auto. apply S2m; simpl; auto. congruence.
+    - (* S2 miss *)
+      rewrite Hc, Hv. simpl. apply PUT; simpl; auto. apply S3; simpl; auto.
+    - (* S2 hit *)
+      rewrite Hc, Hv. simpl. apply PUT; simpl; auto. eapply S10; simpl; eauto.
+    - (* S3: InitViews *)
+      rewrite Hc. simpl. apply PUT; simpl; auto. apply S4; simpl; auto.
+    - (* S4: QueryAll *)
+      rewrite Hc. simpl. apply PUT; simpl; auto.
+      eapply (S5 _ _ _ _ [] [] (slots (tkey t))); simpl; eauto.
+      intros _ _. reflexivity.
+    - (* S5: Query / IfNonEmpty *)
+      rewrite Hc, Hv. destruct todo as [|s todo']; simpl.
+      + rewrite app_nil_r in Hsp. subst dn. destruct vs as [|v vs'].
+        * apply PUT; simpl; auto. eapply S10; simpl; eauto.
+        * apply PUT; simpl; auto. eapply S7; simpl; eauto. discriminate.
+      + apply PUT; simpl; auto.
+        eapply (S5 _ _ _ _ _ (dn ++ [s]) todo'); simpl; eauto.
+        * rewrite <- app_assoc. exact Hsp.
+        * intros E Hq. rewrite lookup_over_app, (Hcs E Hq). unfold lookup_over. simpl.
+          rewrite app_nil_r. reflexivity.
+    - (* S7: Lock *)
+      rewrite Hc. simpl. destruct (lock st); [exact I|].
+      apply inv_set_lock. apply PUT; simpl; auto. eapply S8; simpl; eauto.
+    - (* S8: Write *)
+      rewrite Hc, Hv. simpl. destruct (tc t) as [c|] eqn:Etc; [|congruence].
+      eapply inv_put_lookup.
+      + eapply (inv_write st i t c vs); eauto.
+      + exact Hi.
+      + exact Hk.
+      + simpl. exact Hk.
+      + simpl. eapply S9; simpl; eauto. congruence.
+      + simpl. intros c0 E. apply A. congruence.
+    - (* S9: Unlock *)
+      rewrite Hc. simpl. apply inv_set_lock. apply PUT; simpl; auto. eapply S10; simpl; eauto.
+    - (* S10: Return *)
+      rewrite Hc. simpl. apply PUT; simpl; auto. apply S11. reflexivity.
+    - rewrite Hc. exact I.
+  Qed.
+
+  Lemma inv_step st i t : Inv st -> threads st i = Some t -> Inv (stepT st i t).
+  Proof.
+    intros I Hi. destruct (tkind t) eqn:Hk; [apply inv_step_lookup; auto|].
+    destruct (inv_threads _ I _ _ Hi) as [A B]. rewrite Hk in B.
+    unfold step_thread. destruct B as [[Hc Hp]|[[Hc Hp]|Hc]]; rewrite Hc; simpl.
+    - apply inv_register_adapter; auto.
+    - apply inv_clear_swap; auto.
+    - exact I.
+  Qed.
+
+  Lemma inv_label st l : Inv st -> Inv (doL st l).
+  Proof.
+    intros I. destruct l as [k|ups|i]; simpl.
+    - apply inv_spawn; simpl; auto.
+    - apply inv_spawn; simpl; auto.
+    - destruct (threads st i) eqn:Hi; [apply inv_step; auto|exact I].
+  Qed.
+
+  Lemma inv_run tr st : Inv st -> Inv (run tr st).
+  Proof. revert st. induction tr as [|l tr IH]; intros st I; simpl; [exact I|]. apply IH, inv_label, I. Qed.
+
+  Lemma inv_reachable R0 tr : Inv (run tr (init R0)).
+  Proof. apply inv_run, inv_init. Qed.
+
+  (* ---------- quiet, executable and declarative *)
+  Lemma quiet_upto_spec n st :
+    quiet_upto n st = true <-> (forall i t, i < n -> threads st i = Some t -> midway t = false).
+  Proof.
+    induction n as [|n IH]; simpl.
+    - split; [intros _ i t Hi; lia|auto].
+    - rewrite andb_true_iff, IH. split.
+      + intros [H1 H2] i t Hi Ht. destruct (Nat.eq_dec i n) as [->|Hne].
+        * rewrite Ht in H1. destruct (midway t); [discriminate|reflexivity].
+        * apply (H2 i); auto. lia.
+      + intros H. split.
+        * destruct (threads st n) as [t|] eqn:E; [|reflexivity]. rewrite (H n t); auto.
+        * intros i t Hi. apply H. lia.
+  Qed.
+
+  Lemma quietb_quiet st : Inv st -> (quietb st = true <-> quiet st).
+  Proof.
+    intros I. unfold quietb. rewrite quiet_upto_spec. split.
+    - intros H i t Ht. apply (H i); auto.
+      destruct (le_lt_dec (ntid st) i) as [Hl|Hl]; [|exact Hl].
+      rewrite (inv_ntid _ I) in Ht by auto. discriminate.
+    - intros H i t _ Ht. apply (H i); auto.
+  Qed.
+
+  (* ---------- what a step does to the other components: generic in the program *)
+  Ltac dm := repeat match goal with
+                    | |- context [match ?x with _ => _ end] => destruct x eqn:?; simpl
+                    end.
+
+  Lemma upd_self (th : tid -> option thread) i t j : th i = Some t -> th j = upd th i (Some t) j.
+  Proof. intros H. unfold upd. destruct (Nat.eqb_spec j i); subst; auto. Qed.
+
+  Lemma step_generic st i t :
+    threads st i = Some t ->
+    ntid (stepT st i t) = ntid st /\
+    (forall j, j <> i -> threads (stepT st i t) j = threads st j) /\
+    exists t', threads (stepT st i t) i = Some t' /\ tkey t' = tkey t /\ tkind t' = tkind t.
+  Proof.
+    intros Hi. unfold step_thread. destruct (cont t) as [|ins rest]; [repeat split; eauto|].
+    destruct ins; simpl; dm;
+      (split; [reflexivity|split; [intros j Hj; try rewrite upd_other by auto; reflexivity|]]);
+      try (eexists; split; [apply upd_same|split; reflexivity]); eauto.
+  Qed.
+
+  Lemma reg_step_false_R st l : reg_step st l = false -> R (doL st l) = R st.
+  Proof.
+    destruct l as [k|ups|i]; simpl; try reflexivity.
+    destruct (threads st i) as [t|]; [|reflexivity].
+    unfold step_thread. destruct (cont t) as [|ins rest]; [reflexivity|].
+    destruct ins; simpl; dm; try reflexivity; discriminate.
+  Qed.
+
+  Lemma label_generic st l j t :
+    threads st j = Some t -> j < ntid st ->
+    ntid st <= ntid (doL st l) /\
+    exists t', threads (doL st l) j = Some t' /\ tkey t' = tkey t /\ tkind t' = tkind t.
+  Proof.
+    intros Hj Hlt. destruct l as [k|ups|i]; simpl.
+    - split; [lia|]. exists t. rewrite upd_other by lia. auto.
+    - split; [lia|]. exists t. rewrite upd_other by lia. auto.
+    - destruct (threads st i) as [ti|] eqn:Hi; [|split; [lia|eauto]].
+      destruct (step_generic st i ti Hi) as (A & B & t' & C & D & E).
+      split; [lia|]. destruct (Nat.eq_dec j i) as [->|Hne].
+      + rewrite Hi in Hj. inversion Hj. subst ti. eauto.
+      + rewrite B by auto. eauto.
+  Qed.
+
+  Lemma run_generic tr st j t :
+    threads st j = Some t -> j < ntid st ->
+    exists t', threads (run tr st) j = Some t' /\ tkey t' = tkey t /\ tkind t' = tkind t.
+  Proof.
+    revert st t. induction tr as [|l tr IH]; intros st t Hj Hlt; simpl; [eauto|].
+    destruct (label_generic st l j t Hj Hlt) as (A & t' & B & C & D).
+    destruct (IH (doL st l) t' B) as (t'' & E & F & G); [lia|].
+    exists t''. repeat split; congruence.
+  Qed.
+
+  (* ---------- a span in which the registrations do not change *)
+  Definition P (st : state) (t : thread) : Prop :=
+    (cont t = LPs /\ tc t = None) \/
+    (cont t <> [] /\ tc t = Some (cur st)) \/
+    (cont t = [] /\ tres t = Some (lall (R st) (tkey t))).
+
+  Lemma step_lookup_span st i t :
+    Inv st -> threads st i = Some t -> tkind t = KLookup -> quiet st ->
+    R (stepT st i t) = R st /\ cur (stepT st i t) = cur st /\
+    exists t', (forall j, threads (stepT st i t) j = upd (threads st) i (Some t') j) /\
+               tkind t' = KLookup /\ (P st t -> P st t').
+  Proof.
+    intros I Hi Hk Hq.
+    destruct (inv_threads _ I _ _ Hi) as [A B]. rewrite Hk in B.
+    unfold step_thread.
+    destruct B as [Hc Htc Hv|Hc Htc Hv|Hc Htc Hv|vs Hc Htc Hv Hne Hcs|Hc Htc Hv|Hc Htc Hv
+                  |vs dn todo Hc Htc Hv Hsp Hcs|vs Hc Htc Hv Hne Hcs|vs Hc Htc Hv Hne Hcs
+                  |vs Hc Htc Hv Hcs|vs Hc Htc Hv Hcs|Hc];
+      rewrite Hc; try rewrite Hv.
+    - simpl. repeat split. eexists. split; [intros j; reflexivity|]. split; [exact Hk|].
+      intros _. right. left. simpl. split; [discriminate|reflexivity].
+    - simpl. destruct (tc t) as [c|] eqn:Etc; [|congruence]. simpl. repeat split.
+      eexists. split; [intros j; reflexivity|]. split; [exact Hk|].
+      intros [[H1 _]|[[_ H1]|[H1 _]]]; [rewrite Hc in H1; discriminate| |rewrite Hc in H1; discriminate].
+      right. left. simpl. split; [discriminate|congruence].
+    - simpl. repeat split. eexists. split; [intros j; reflexivity|]. split; [exact Hk|].
+      intros [[H1 _]|[[_ H1]|[H1 _]]]; [rewrite Hc in H1; discriminate| |rewrite Hc in H1; discriminate].
+      right. left. simpl. split; [discriminate|exact H1].
+    - simpl. repeat split. eexists. split; [intros j; reflexivity|]. split; [exact Hk|].
+      intros [[H1 _]|[[_ H1]|[H1 _]]]; [rewrite Hc in H1; discriminate| |rewrite Hc in H1; discriminate].
+      right. left. simpl. split; [discriminate|exact H1].
+    - simpl. repeat split. eexists. split; [intros j; reflexivity|]. split; [exact Hk|].
+      intros [[H1 _]|[[_ H1]|[H1 _]]]; [rewrite Hc in H1; discriminate| |rewrite Hc in H1; discriminate].
+      right. left. simpl. split; [discriminate|exact H1].
+    - simpl. repeat split. eexists. split; [intros j; reflexivity|]. split; [exact Hk|].
+      intros [[H1 _]|[[_ H1]|[H1 _]]]; [rewrite Hc in H1; discriminate| |rewrite Hc in H1; discriminate].
+      right. left. simpl. split; [|exact H1].
+      destruct (slots (tkey t)); discriminate.
+    - destruct todo as [|s todo']; simpl.
+      + destruct vs as [|v vs']; simpl; repeat split; (eexists; split; [intros j; reflexivity|]; split; [exact Hk|]);
+          (intros [[H1 _]|[[_ H1]|[H1 _]]]; [rewrite Hc in H1; discriminate| |rewrite Hc in H1; discriminate]);
+          right; left; simpl; (split; [discriminate|exact H1]).
+      + repeat split. eexists. split; [intros j; reflexivity|]. split; [exact Hk|].
+        intros [[H1 _]|[[_ H1]|[H1 _]]]; [rewrite Hc in H1; discriminate| |rewrite Hc in H1; discriminate].
+        right. left. simpl. split; [|exact H1]. destruct todo'; discriminate.
+    - simpl. destruct (lock st); simpl; repeat split.
+      + exists t. split; [intros j; apply upd_self; exact Hi|]. split; [exact Hk|]. auto.
+      + eexists. split; [intros j; reflexivity|]. split; [exact Hk|].
+        intros [[H1 _]|[[_ H1]|[H1 _]]]; [rewrite Hc in H1; discriminate| |rewrite Hc in H1; discriminate].
+        right. left. simpl. split; [discriminate|exact H1].
+    - simpl. destruct (tc t) as [c|] eqn:Etc; [|congruence]. simpl. repeat split.
+      eexists. split; [intros j; reflexivity|]. split; [exact Hk|].
+      intros [[H1 _]|[[_ H1]|[H1 _]]]; [rewrite Hc in H1; discriminate| |rewrite Hc in H1; discriminate].
+      right. left. simpl. split; [discriminate|congruence].
+    - simpl. repeat split. eexists. split; [intros j; reflexivity|]. split; [exact Hk|].
+      intros [[H1 _]|[[_ H1]|[H1 _]]]; [rewrite Hc in H1; discriminate| |rewrite Hc in H1; discriminate].
+      right. left. simpl. split; [discriminate|exact H1].
+    - simpl. repeat split. eexists. split; [intros j; reflexivity|]. split; [exact Hk|].
+      intros [[H1 _]|[[_ H1]|[H1 _]]]; [rewrite Hc in H1; discriminate| |rewrite Hc in H1; discriminate].
+      right. right. simpl. split; [reflexivity|]. f_equal. apply Hcs; auto.
+    - repeat split. exists t. split; [intros j; apply upd_self; exact Hi|]. split; [exact Hk|]. auto.
+  Qed.
+
+  Lemma quiet_pointwise (th th' : tid -> option thread) i t t' :
+    (forall j, th' j = upd th i (Some t') j) -> th i = Some t ->
+    midway t = false -> midway t' = false -> (quietT th' <-> quietT th).
+  Proof.
+    intros Hp Hi Hm Hm'. split; intros Q j t0 Hj.
+    - destruct (Nat.eq_dec j i) as [->|Hne]; [congruence|].
+      apply (Q j). rewrite Hp, upd_other; auto.
+    - rewrite Hp in Hj. destruct (Nat.eq_dec j i) as [->|Hne].
+      + rewrite upd_same in Hj. congruence.
+      + rewrite upd_other in Hj; eauto.
+  Qed.
+
+  Lemma P_frame st st' t : R st' = R st -> cur st' = cur st -> P st t -> P st' t.
+  Proof. unfold P. intros -> ->. auto. Qed.
+
+  Lemma span_label st l :
+    Inv st -> quiet st -> reg_step st l = false ->
+    quiet (doL st l) /\ R (doL st l) = R st /\ cur (doL st l) = cur st /\
+    forall j t', threads (doL st l) j = Some t' -> tkind t' = KLookup ->
+                 (forall t, threads st j = Some t -> tkind t = KLookup -> P st t) -> P (doL st l) t'.
+  Proof.
+    intros I Hq Hr.
+    assert (SP : forall t0, midway t0 = false -> quiet (spawn st t0)).
+    { intros t0 Hm. unfold quiet, spawn. simpl. apply quiet_upd_same; auto.
+      intros t1 H1. rewrite (inv_ntid _ I) in H1; [discriminate|lia]. }
+    destruct l as [k|ups|i]; simpl.
+    - split; [apply SP; reflexivity|]. repeat split.
+      intros j t' Hj Hk Hold. destruct (Nat.eq_dec j (ntid st)) as [->|Hne].
+      + rewrite upd_same in Hj. inversion Hj. left. split; reflexivity.
+      + rewrite upd_other in Hj by auto. apply (Hold _ Hj Hk).
+    - split; [apply SP; reflexivity|]. repeat split.
+      intros j t' Hj Hk Hold. destruct (Nat.eq_dec j (ntid st)) as [->|Hne].
+      + rewrite upd_same in Hj. inversion Hj. subst t'. discriminate.
+      + rewrite upd_other in Hj by auto. apply (Hold _ Hj Hk).
+    - destruct (threads st i) as [t|] eqn:Hi; [|repeat split; auto; intros j t' Hj Hk Hold; apply (Hold _ Hj Hk)].
+      destruct (tkind t) eqn:Hk.
+      + destruct (step_lookup_span st i t I Hi Hk Hq) as (A & B & t' & C & D & E).
+        split; [|split; [exact A|split; [exact B|]]].
+        * unfold quiet. eapply quiet_pointwise; eauto; apply midway_lookup; auto.
+        * intros j t0 Hj Hk0 Hold. apply (P_frame st); auto.
+          rewrite C in Hj. destruct (Nat.eq_dec j i) as [->|Hne].
+          -- rewrite upd_same in Hj. inversion Hj. subst t0. apply E. apply (Hold _ Hi Hk).
+          -- rewrite upd_other in Hj by auto. apply (Hold _ Hj Hk0).
+      + destruct (inv_threads _ I _ _ Hi) as [_ B]. rewrite Hk in B.
+        simpl in Hr. rewrite Hi in Hr.
+        destruct B as [[Hc Hp]|[[Hc Hp]|Hc]].
+        * rewrite Hc in Hr. discriminate.
+        * assert (M : midway t = true) by (apply midway_rg; auto; right; left; auto).
+          rewrite (Hq _ _ Hi) in M. discriminate.
+        * unfold step_thread. rewrite Hc. repeat split; auto;
+          intros j t' Hj Hk0 Hold; apply (Hold _ Hj Hk0).
+  Qed.
+
+  Lemma span_run tr st :
+    Inv st -> quiet st -> reg_free sro LPs RPs st tr = true ->
+    quiet (run tr st) /\ R (run tr st) = R st /\ cur (run tr st) = cur st /\
+    forall j t', threads (run tr st) j = Some t' -> tkind t' = KLookup ->
+                 (forall t, threads st j = Some t -> tkind t = KLookup -> P st t) -> P (run tr st) t'.
+  Proof.
+    revert st. induction tr as [|l tr IH]; intros st I Hq Hf; simpl.
+    - repeat split; auto; intros j t' Hj Hk Hold; apply (Hold _ Hj Hk).
+    - simpl in Hf. apply andb_true_iff in Hf. destruct Hf as [H1 H2]. apply negb_true_iff in H1.
+      destruct (span_label st l I Hq H1) as (A & B & C & D).
+      destruct (IH (doL st l) (inv_label _ _ I) A H2) as (A' & B' & C' & D').
+      split; [exact A'|]. split; [congruence|]. split; [congruence|].
+      intros j t' Hj Hk Hold. apply (D' j t' Hj Hk).
+      intros t Ht Hkt. apply (D j t Ht Hkt Hold).
+  Qed.
+
+  (* ---------- the central theorems, for the standard programs *)
+
+  (* cache_inv: whenever no registration is in progress, every entry of the current cache is the
+     non-empty, up-to-date answer, and every in-flight lookup that holds the current dictionary
+     has partial results consistent with the registrations *)
+  Lemma cache_inv_std R0 tr :
+    let st := run tr (init R0) in
+    quietb st = true ->
+    (forall k vs, dget (heap st (cur st)) k = Some vs -> vs = lall (R st) k /\ vs <> []) /\
+    (forall i t vs, threads st i = Some t -> tkind t = KLookup -> cont t <> [] ->
+                    tc t = Some (cur st) -> tviews t = Some vs ->
+                    exists dn, dn ++ pending sro (tkey t) (cont t) = slots (tkey t) /\ vs = lookup_over (R st) dn).
+  Proof.
+    intros st Hqb. assert (I : Inv st) by apply inv_reachable.
+    assert (Hq : quiet st) by (apply quietb_quiet; auto).
+    split.
+    - intros k vs H. split; [apply (inv_fresh _ I Hq _ _ H)|apply (inv_nonempty _ I _ _ _ H)].
+    - intros i t vs Hi Hk Hne Htc Hv.
+      destruct (inv_threads _ I _ _ Hi) as [_ B]. rewrite Hk in B.
+      assert (LD : forall todo, leading (map Query todo ++ Kk) = todo).
+      { induction todo as [|s r IHr]; simpl; [reflexivity|]. f_equal. exact IHr. }
+      destruct B as [Hc Htc' Hv'|Hc Htc' Hv'|Hc Htc' Hv'|vs' Hc Htc' Hv' Hne' Hcs|Hc Htc' Hv'|Hc Htc' Hv'
+                    |vs' dn todo Hc Htc' Hv' Hsp Hcs|vs' Hc Htc' Hv' Hne' Hcs|vs' Hc Htc' Hv' Hne' Hcs
+                    |vs' Hc Htc' Hv' Hcs|vs' Hc Htc' Hv' Hcs|Hc];
+        try congruence;
+        try (exists (slots (tkey t)); rewrite Hc; simpl; rewrite app_nil_r; split; [reflexivity|];
+             assert (vs' = vs) by congruence; subst vs'; apply Hcs; auto).
+      + exists []. rewrite Hc. simpl. split; [reflexivity|]. congruence.
+      + exists dn. rewrite Hc. unfold pending.
+        assert (E : leading (map Query todo ++ Kk) = todo) by apply LD.
+        destruct todo as [|s todo']; simpl in *.
+        * split; [exact Hsp|]. assert (vs' = vs) by congruence. subst vs'. apply Hcs; auto.
+        * rewrite LD. split; [exact Hsp|]. assert (vs' = vs) by congruence. subst vs'. apply Hcs; auto.
+  Qed.
+
+  (* lookup_fresh: a lookup that starts when no registration is in progress, and during which the
+     registrations do not change, returns lookup_all of the registrations -- whatever happened
+     before (tr1 arbitrary: cold or warm cache, other lookups in flight) and whatever other
+     threads do meanwhile (tr2 arbitrary but registration-free) *)
+  Lemma lookup_fresh_std R0 tr1 k tr2 :
+    let st1 := run tr1 (init R0) in
+    let st2 := run (SpawnLookup k :: tr2) st1 in
+    quietb st1 = true ->
+    reg_free sro LPs RPs st1 (SpawnLookup k :: tr2) = true ->
+    exists t, threads st2 (ntid st1) = Some t /\ tkind t = KLookup /\ tkey t = k /\
+              (cont t = [] -> tres t = Some (lall (R st1) k)).
+  Proof.
+    intros st1 st2 Hqb Hf.
+    assert (I : Inv st1) by apply inv_reachable.
+    assert (Hq : quiet st1) by (apply quietb_quiet; auto).
+    destruct (span_run (SpawnLookup k :: tr2) st1 I Hq Hf) as (A & B & C & D).
+    set (s1 := doL st1 (SpawnLookup k)).
+    assert (T1 : threads s1 (ntid st1) = Some (new_lookup LPs k)) by (simpl; apply upd_same).
+    destruct (run_generic tr2 s1 (ntid st1) _ T1) as (t & Ht & Hkey & Hkind); [simpl; lia|].
+    exists t. fold st2 in A, B, C, D. change (run tr2 s1) with st2 in Ht.
+    repeat split; auto.
+    intros Hc. specialize (D _ _ Ht Hkind).
+    destruct D as [[H1 _]|[[H1 _]|[_ H1]]].
+    - intros t0 H0. rewrite (inv_ntid _ I) in H0; [discriminate|lia].
+    - rewrite Hc in H1. discriminate.
+    - congruence.
+    - rewrite H1, B. f_equal. f_equal. exact Hkey.
+  Qed.
+
+  (* no_stale_after_register: thread i is about to register [ups]; it registers, anything
+     registration-free happens (other lookups may be in progress across the registration), and once
+     no registration is in progress (so i has cleared the cache) every lookup that starts returns
+     lookup_all of the NEW registrations *)
+  Lemma no_stale_after_register_std R0 tr0 i ti trm k tr2 :
+    let st0 := run tr0 (init R0) in
+    let st1 := run (Step i :: trm) st0 in
+    let st2 := run (SpawnLookup k :: tr2) st1 in
+    threads st0 i = Some ti -> tkind ti = KRegister -> cont ti = RPs ->
+    reg_free sro LPs RPs (doL st0 (Step i)) trm = true ->
+    quietb st1 = true ->
+    reg_free sro LPs RPs st1 (SpawnLookup k :: tr2) = true ->
+    exists t, threads st2 (ntid st1) = Some t /\ tkind t = KLookup /\ tkey t = k /\
+              (cont t = [] -> tres t = Some (lall (rapply (tups ti) (R st0)) k)).
+  Proof.
+    intros st0 st1 st2 Hi Hk Hc Hfm Hqb Hf.
+    assert (E : R st1 = rapply (tups ti) (R st0)).
+    { unfold st1. simpl. 
+      assert (G : forall tr st, reg_free sro LPs RPs st tr = true -> R (run tr st) = R st).
+      { induction tr as [|l tr IH]; intros st H; simpl; [reflexivity|].
+        simpl in H. apply andb_true_iff in H. destruct H as [H1 H2]. apply negb_true_iff in H1.
+        rewrite IH by auto. apply reg_step_false_R. exact H1. }
+      rewrite G by exact Hfm. simpl. rewrite Hi. unfold step_thread. rewrite Hc. reflexivity. }
+    rewrite <- E.
+    assert (E1 : st1 = run (tr0 ++ Step i :: trm) (init R0)).
+    { unfold st1, st0, exec. rewrite fold_left_app. reflexivity. }
+    pose proof (lookup_fresh_std R0 (tr0 ++ Step i :: trm) k tr2) as L. cbv zeta in L.
+    rewrite <- E1 in L. apply L; auto.
+  Qed.
+
+  (* misses_not_cached: no dictionary ever holds an empty answer; and when no registration is in
+     progress a key whose lookup finds nothing is absent from the current cache *)
+  Lemma misses_not_cached_std R0 tr :
+    let st := run tr (init R0) in
+    (forall c k vs, dget (heap st c) k = Some vs -> vs <> []) /\
+    (quietb st = true -> forall k, lall (R st) k = [] -> dget (heap st (cur st)) k = None).
+  Proof.
+    intros st. assert (I : Inv st) by apply inv_reachable. split.
+    - apply (inv_nonempty _ I).
+    - intros Hqb k Hl. destruct (dget (heap st (cur st)) k) as [vs|] eqn:E; [|reflexivity].
+      assert (Hq : quiet st) by (apply quietb_quiet; auto).
+      pose proof (inv_fresh _ I Hq _ _ E) as H1. pose proof (inv_nonempty _ I _ _ _ E) as H2.
+      congruence.
+  Qed.
+
+  (* concurrent_equals_sequential: registrations fixed (R0), any number of lookup threads
+     interleaved in any way: every finished lookup returned lookup_all R0 of its key ... *)
+  Lemma concurrent_answer_std R0 tr j t :
+    reg_free sro LPs RPs (init R0) tr = true ->
+    threads (run tr (init R0)) j = Some t -> tkind t = KLookup -> cont t = [] ->
+    tres t = Some (lall R0 (tkey t)).
+  Proof.
+    intros Hf Hj Hk Hc.
+    assert (Hq : quiet (init R0)) by (intros i0 t0 H0; discriminate).
+    destruct (span_run tr (init R0) (inv_init R0) Hq Hf) as (A & B & C & D).
+    specialize (D _ _ Hj Hk). destruct D as [[H1 _]|[[H1 _]|[_ H1]]].
+    - intros t0 H0. discriminate.
+    - rewrite Hc in H1. discriminate.
+    - congruence.
+    - rewrite H1, B. reflexivity.
+  Qed.
+
+  (* a system of lookup threads only never changes the registrations *)
+  Lemma lookup_head_not_reg st t :
+    lk_ok (R st) (cur st) (quiet st) t ->
+    match cont t with RegisterAdapter :: _ => true | _ => false end = false.
+  Proof.
+    intros K2.
+    destruct K2 as [Hc2 _ _|Hc2 _ _|Hc2 _ _|? Hc2 _ _ _ _|Hc2 _ _|Hc2 _ _|? ? todo Hc2 _ _ _ _
+                   |? Hc2 _ _ _ _|? Hc2 _ _ _ _|? Hc2 _ _ _|? Hc2 _ _ _|Hc2];
+      rewrite Hc2; try reflexivity. destruct todo; reflexivity.
+  Qed.
+
+  Definition no_spawn_register (l : label) : bool :=
+    match l with SpawnRegister _ => false | _ => true end.
+
+  Lemma lookups_reg_free tr st :
+    Inv st -> (forall i ti, threads st i = Some ti -> tkind ti = KLookup) ->
+    forallb no_spawn_register tr = true ->
+    reg_free sro LPs RPs st tr = true.
+  Proof.
+    revert st. induction tr as [|l tr IH]; intros st I HL Hn; simpl; [reflexivity|].
+    simpl in Hn. apply andb_true_iff in Hn. destruct Hn as [Hn1 Hn2].
+    apply andb_true_iff. split.
+    - destruct l as [k|ups|i]; simpl; try reflexivity.
+      destruct (threads st i) as [ti|] eqn:Ei; [|reflexivity].
+      destruct (inv_threads _ I _ _ Ei) as [_ B]. rewrite (HL _ _ Ei) in B.
+      rewrite (lookup_head_not_reg st ti B). reflexivity.
+    - apply IH; [apply inv_label; exact I| |exact Hn2].
+      intros j tj Hj. destruct l as [k|ups|i]; simpl in Hj.
+      + destruct (Nat.eq_dec j (ntid st)) as [->|Hne].
+        * rewrite upd_same in Hj. inversion Hj. reflexivity.
+        * rewrite upd_other in Hj by auto. eauto.
+      + discriminate.
+      + destruct (threads st i) as [ti|] eqn:Ei; [|eauto].
+        destruct (step_generic st i ti Ei) as (_ & Ho & t3 & Hs & _ & Hkd).
+        destruct (Nat.eq_dec j i) as [->|Hne].
+        * rewrite Hs in Hj. inversion Hj. subst tj. rewrite Hkd. eauto.
+        * rewrite Ho in Hj by auto. eauto.
+  Qed.
+
+  (* ... which is the answer of every single-threaded run of the same lookup *)
+  Lemma concurrent_equals_sequential_std R0 tr j t n t0 :
+    reg_free sro LPs RPs (init R0) tr = true ->
+    threads (run tr (init R0)) j = Some t -> tkind t = KLookup -> cont t = [] ->
+    threads (run (SpawnLookup (tkey t) :: repeat (Step 0) n) (init R0)) 0 = Some t0 -> cont t0 = [] ->
+    tres t = tres t0.
+  Proof.
+    intros Hf Hj Hk Hc H0 Hc0.
+    rewrite (concurrent_answer_std R0 tr j t Hf Hj Hk Hc).
+    destruct (lookup_fresh_std R0 [] (tkey t) (repeat (Step 0) n)) as (t1 & T1 & T2 & T3 & T4).
+    - reflexivity.
+    - apply lookups_reg_free.
+      + apply inv_init.
+      + intros i ti Hi. discriminate.
+      + simpl. clear. induction n; simpl; auto.
+    - change (ntid (run [] (init R0))) with 0 in T1. change (run [] (init R0)) with (init R0) in *.
+      rewrite H0 in T1. inversion T1. subst t1. rewrite T4 by exact Hc0. reflexivity.
+  Qed.
+
+  (* ---------- the executable expectation [expect] (what the harness judges the implementation
+     with) is sound: whenever it constrains a lookup, the model's lookup returns exactly that *)
+  Definition G (st : state) (ex : tid -> option (list view)) : Prop :=
+    forall j vs, ex j = Some vs ->
+      exists t, threads st j = Some t /\ tkind t = KLookup /\
+                ((cont t = [] /\ tres t = Some vs) \/
+                 (cont t <> [] /\ quiet st /\ vs = lall (R st) (tkey t) /\ P st t)).
+
+  Lemma G_label st l ex :
+    Inv st -> G st ex ->
+    G (doL st l)
+      (match l with
+       | SpawnLookup k => upd ex (ntid st) (if quietb st then Some (lall (R st) k) else None)
+       | SpawnRegister _ => upd ex (ntid st) None
+       | Step _ => if reg_step st l then (fun j => if finished st j then ex j else None) else ex
+       end).
+  Proof.
+    intros I HG.
+    assert (LT : forall j vs, ex j = Some vs -> j < ntid st).
+    { intros j vs H. destruct (HG _ _ H) as (t & Ht & _).
+      destruct (le_lt_dec (ntid st) j) as [Hl|Hl]; [|exact Hl].
+      rewrite (inv_ntid _ I) in Ht by auto. discriminate. }
+    assert (SPQ : forall t0, midway t0 = false -> quiet st -> quiet (spawn st t0)).
+    { intros t0 Hm Hq. unfold quiet, spawn. simpl. apply quiet_upd_same; auto.
+      intros t1 H1. rewrite (inv_ntid _ I) in H1; [discriminate|lia]. }
+    assert (OLD : forall t0 j vs, midway t0 = false -> j <> ntid st -> ex j = Some vs ->
+              exists t, threads (spawn st t0) j = Some t /\ tkind t = KLookup /\
+                ((cont t = [] /\ tres t = Some vs) \/
+                 (cont t <> [] /\ quiet (spawn st t0) /\ vs = lall (R (spawn st t0)) (tkey t) /\ P (spawn st t0) t))).
+    { intros t0 j vs Hm Hne H. destruct (HG _ _ H) as (t & Ht & Hk & Hd).
+      exists t. simpl. rewrite upd_other by auto. repeat split; auto.
+      destruct Hd as [Hd|(A & B & C & D)]; [left; exact Hd|right]. repeat split; auto. }
+    destruct l as [k|ups|i].
+    - intros j vs H. simpl. destruct (Nat.eq_dec j (ntid st)) as [->|Hne].
+      + rewrite upd_same in H. destruct (quietb st) eqn:Hqb; [|discriminate]. inversion H. subst vs.
+        eexists. rewrite upd_same. split; [reflexivity|]. split; [reflexivity|]. right.
+        split; [discriminate|]. split; [apply (SPQ (new_lookup LPs k)); [reflexivity|apply quietb_quiet; auto]|].
+        split; [reflexivity|]. left. split; reflexivity.
+      + rewrite upd_other in H by auto. apply (OLD (new_lookup LPs k)); auto.
+    - intros j vs H. simpl. destruct (Nat.eq_dec j (ntid st)) as [->|Hne].
+      + rewrite upd_same in H. discriminate.
+      + rewrite upd_other in H by auto. apply (OLD (new_register RPs ups)); auto.
+    - destruct (reg_step st (Step i)) eqn:Hr.
+      + intros j vs H. unfold finished in H.
+        destruct (threads st j) as [t|] eqn:Hj.
+        * destruct (is_nil (cont t)) eqn:Hn; [|discriminate].
+          destruct (HG _ _ H) as (t1 & Ht1 & Hk & Hd). rewrite Hj in Ht1. inversion Ht1. subst t1.
+          assert (Hc : cont t = []) by (destruct (cont t); [reflexivity|discriminate]).
+          destruct Hd as [Hd|[A _]]; [|congruence].
+          exists t. split; [|split; [exact Hk|left; exact Hd]].
+          simpl. simpl in Hr. destruct (threads st i) as [ti|] eqn:Hi; [|exact Hj].
+          destruct (Nat.eq_dec j i) as [->|Hne].
+          -- rewrite Hj in Hi. inversion Hi. subst ti. rewrite Hc in Hr. discriminate.
+          -- destruct (step_generic st i ti Hi) as (_ & Ho & _). rewrite Ho by auto. exact Hj.
+        * destruct (HG _ _ H) as (t1 & Ht1 & _). congruence.
+      + intros j vs H. destruct (HG _ _ H) as (t & Ht & Hk & Hd).
+        destruct (label_generic st (Step i) j t Ht (LT _ _ H)) as (_ & t' & Ht' & Hkey & Hkind).
+        destruct Hd as [[Hc Hres]|(Hc & Hq & Hvs & HP)].
+        * exists t. split; [|split; [exact Hk|left; auto]].
+          simpl. destruct (threads st i) as [ti|] eqn:Hi; [|exact Ht].
+          destruct (Nat.eq_dec j i) as [->|Hne].
+          -- rewrite Ht in Hi. inversion Hi. subst ti. unfold step_thread. rewrite Hc. exact Ht.
+          -- destruct (step_generic st i ti Hi) as (_ & Ho & _). rewrite Ho by auto. exact Ht.
+        * destruct (span_label st (Step i) I Hq Hr) as (A & B & C & D).
+          exists t'. split; [exact Ht'|]. split; [congruence|].
+          assert (HP' : P (doL st (Step i)) t').
+          { apply (D j t' Ht'); [congruence|]. intros t0 H0 _. rewrite Ht in H0. inversion H0. subst t0. exact HP. }
+          destruct (cont t') eqn:Ec.
+          -- left. split; [reflexivity|]. destruct HP' as [[H1 _]|[[H1 _]|[_ H1]]].
+             ++ rewrite Ec in H1. discriminate.
+             ++ rewrite Ec in H1. congruence.
+             ++ rewrite H1, B, Hkey, Hvs. reflexivity.
+          -- right. split; [discriminate|]. split; [exact A|]. split; [rewrite B, Hkey; exact Hvs|exact HP'].
+  Qed.
+
+  Lemma G_run tr st ex : Inv st -> G st ex -> G (run tr st) (expect sro LPs RPs st tr ex).
+  Proof.
+    revert st ex. induction tr as [|l tr IH]; intros st ex I HG; simpl; [exact HG|].
+    apply IH; [apply inv_label; exact I|]. apply G_label; auto.
+  Qed.
+
+  Lemma expect_sound_std R0 tr j vs t :
+    expect sro LPs RPs (init R0) tr (fun _ => None) j = Some vs ->
+    threads (run tr (init R0)) j = Some t -> cont t = [] ->
+    tkind t = KLookup /\ tres t = Some vs.
+  Proof.
+    intros He Ht Hc.
+    assert (HG : G (init R0) (fun _ => None)) by (intros j0 vs0 H; discriminate).
+    destruct (G_run tr (init R0) _ (inv_init R0) HG j vs He) as (t1 & Ht1 & Hk & Hd).
+    rewrite Ht in Ht1. inversion Ht1. subst t1. split; [exact Hk|].
+    destruct Hd as [[_ H]|[H _]]; [exact H|congruence].
+  Qed.
 End Proofs.
+
+(* ================= the theorems for the programs of the current tree ================= *)
+Theorem lookup_fresh : fresh_claim lookup_prog register_prog.
+Proof.
+  rewrite facts_lookup_prog, facts_register_prog.
+  intros sro R0 tr1 k tr2. apply lookup_fresh_std.
+Qed.
+
+Theorem misses_not_cached : misses_claim lookup_prog register_prog.
+Proof.
+  rewrite facts_lookup_prog, facts_register_prog.
+  intros sro R0 tr. apply misses_not_cached_std.
+Qed.
+
+Lemma cache_inv : forall sro R0 tr,
+  let st := exec sro lookup_prog register_prog tr (init R0) in
+  quietb st = true ->
+  (forall k vs, dget (heap st (cur st)) k = Some vs -> vs = lookup_all sro (R st) k /\ vs <> []) /\
+  (forall i t vs, threads st i = Some t -> tkind t = KLookup -> cont t <> [] ->
+                  tc t = Some (cur st) -> tviews t = Some vs ->
+                  exists dn, dn ++ pending sro (tkey t) (cont t) = slots_of sro (tkey t) /\
+                             vs = lookup_over (R st) dn).
+Proof. rewrite facts_lookup_prog, facts_register_prog. exact cache_inv_std. Qed.
+
+Lemma no_stale_after_register : forall sro R0 tr0 i ti trm k tr2,
+  let st0 := exec sro lookup_prog register_prog tr0 (init R0) in
+  let st1 := exec sro lookup_prog register_prog (Step i :: trm) st0 in
+  let st2 := exec sro lookup_prog register_prog (SpawnLookup k :: tr2) st1 in
+  threads st0 i = Some ti -> tkind ti = KRegister -> cont ti = register_prog ->
+  reg_free sro lookup_prog register_prog (do_label sro lookup_prog register_prog st0 (Step i)) trm = true ->
+  quietb st1 = true ->
+  reg_free sro lookup_prog register_prog st1 (SpawnLookup k :: tr2) = true ->
+  exists t, threads st2 (ntid st1) = Some t /\ tkind t = KLookup /\ tkey t = k /\
+            (cont t = [] -> tres t = Some (lookup_all sro (rapply (tups ti) (R st0)) k)).
+Proof. rewrite facts_lookup_prog, facts_register_prog. exact no_stale_after_register_std. Qed.
+
+Lemma concurrent_equals_sequential : forall sro R0 tr j t,
+  reg_free sro lookup_prog register_prog (init R0) tr = true ->
+  threads (exec sro lookup_prog register_prog tr (init R0)) j = Some t -> tkind t = KLookup -> cont t = [] ->
+  tres t = Some (lookup_all sro R0 (tkey t)) /\
+  forall n t0,
+    threads (exec sro lookup_prog register_prog (SpawnLookup (tkey t) :: repeat (Step 0) n) (init R0)) 0 = Some t0 ->
+    cont t0 = [] -> tres t = tres t0.
+Proof.
+  rewrite facts_lookup_prog, facts_register_prog. intros sro R0 tr j t Hf Hj Hk Hc. split.
+  - eapply concurrent_answer_std; eauto.
+  - intros n t0 H0 Hc0. eapply concurrent_equals_sequential_std; eauto.
+Qed.
+
+Lemma expect_sound : forall sro R0 tr j vs t,
+  expect sro lookup_prog register_prog (init R0) tr (fun _ => None) j = Some vs ->
+  threads (exec sro lookup_prog register_prog tr (init R0)) j = Some t -> cont t = [] ->
+  tkind t = KLookup /\ tres t = Some vs.
+Proof. rewrite facts_lookup_prog, facts_register_prog. exact expect_sound_std. Qed.
+
+(* ================= concrete world for examples and refutations ================= *)
+Definition sro1 (i : N) : list N :=
+  if N.eqb i 1 then [1; 0]%N else if N.eqb i 11 then [11; 10; 0]%N else [].
+Definition k1 : key := (1, 11, 0)%N.
+Definition sA : slot := (1, 11, 0, 0)%N.
+Definition R1 : reg := [(sA, Some 1%N)].
+Definition steps (i n : nat) : list label := repeat (Step i) n.
+(* thread 0 looks k1 up and is pre-empted just before the lock (24 instructions: all 18 adapter
+   queries made); thread 1 replaces the view and clears the cache; thread 0 finishes *)
+Definition tr_late : list label :=
+  SpawnLookup k1 :: steps 0 24 ++ [SpawnRegister [(sA, Some 2%N)]; Step 1; Step 1] ++ steps 0 4.
+
+(* non-vacuity: in the current tree the late write lands in the detached dictionary; the next
+   lookup misses, queries again and sees the new view *)
+Definition st_late : state := exec sro1 lookup_prog register_prog tr_late (init R1).
+Definition st_next : state := exec sro1 lookup_prog register_prog (SpawnLookup k1 :: steps 2 40) st_late.
+Example late_write_detached :
+  quietb st_late = true /\
+  reg_free sro1 lookup_prog register_prog st_late (SpawnLookup k1 :: steps 2 40) = true /\
+  dget (heap st_late (cur st_late)) k1 = None /\ dget (heap st_late 0) k1 = Some [1%N] /\
+  (exists t0, threads st_late 0 = Some t0 /\ tres t0 = Some [1%N]) /\
+  (exists t, threads st_next 2 = Some t /\ cont t = [] /\ tres t = Some [2%N] /\ tq t = 18) /\
+  lookup_all sro1 (R st_late) k1 = [2%N].
+Proof.
+  vm_compute.
+  split; [reflexivity|]. split; [reflexivity|]. split; [reflexivity|]. split; [reflexivity|].
+  split; [eexists; split; reflexivity|].
+  split; [eexists; repeat (split; [reflexivity|]); reflexivity|]. reflexivity.
+Qed.
+
+Ltac refute_fresh tr1 tr2 :=
+  let H := fresh "H" in
+  intros H;
+  pose proof (H sro1 R1 tr1 k1 tr2) as H; cbv zeta in H;
+  let Q := fresh "Q" in let F := fresh "F" in
+  match type of H with
+  | ?q -> ?f -> _ =>
+      assert (Q : q) by (vm_compute; reflexivity);
+      assert (F : f) by (vm_compute; reflexivity);
+      specialize (H Q F)
+  end;
+  let t := fresh "t" in let A := fresh "A" in let D := fresh "D" in
+  destruct H as (t & A & _ & _ & D);
+  vm_compute in A; inversion A; subst t; vm_compute in D; specialize (D eq_refl); discriminate D.
+
+(* write through the re-read attribute: the late write of the pre-empted lookup lands in the
+   FRESH dictionary; the next lookup returns the replaced view *)
+Lemma lookup_fresh_Reread_refuted : ~ fresh_claim (std_lookup Reread true) (std_register Swap).
+Proof. refute_fresh tr_late (steps 2 40). Qed.
+
+(* clearing in place: the pre-empted lookup still holds the (emptied) current dictionary *)
+Lemma lookup_fresh_InPlace_refuted : ~ fresh_claim (std_lookup Local true) (std_register InPlace).
+Proof. refute_fresh tr_late (steps 2 40). Qed.
+
+(* no clear after the registration: a warm cache keeps the old answer *)
+Definition tr_warm : list label :=
+  SpawnLookup k1 :: steps 0 40 ++ [SpawnRegister [(sA, Some 2%N)]; Step 1; Step 1].
+Lemma lookup_fresh_NoClear_refuted : ~ fresh_claim (std_lookup Local true) [RegisterAdapter].
+Proof. refute_fresh tr_warm (steps 2 40). Qed.
+
+(* clear before the registration: a lookup between the two steps re-caches the old answer *)
+Definition tr_clear_first : list label :=
+  [SpawnRegister [(sA, Some 2%N)]; Step 0; SpawnLookup k1] ++ steps 1 40 ++ [Step 0].
+Lemma lookup_fresh_ClearFirst_refuted :
+  ~ fresh_claim (std_lookup Local true) [Clear Swap; RegisterAdapter].
+Proof. refute_fresh tr_clear_first (steps 2 40). Qed.
+
+(* no [if views:] guard: a miss is written into the cache *)
+Lemma misses_not_cached_Unguarded_refuted : ~ misses_claim (std_lookup Local false) (std_register Swap).
+Proof.
+  intros H. pose proof (H sro1 [] (SpawnLookup k1 :: steps 0 40)) as H. cbv zeta in H.
+  destruct H as [H _]. specialize (H 0 k1 []). apply H; [|reflexivity]. vm_compute. reflexivity.
+Qed.
+
+(* non-vacuity of concurrent_equals_sequential: three lookup threads interleaved, one sequential run *)
+Definition tr_three : list label :=
+  [SpawnLookup k1; SpawnLookup k1; Step 0; Step 1; Step 0; SpawnLookup (1, 11, 1)%N] ++
+  steps 1 30 ++ steps 2 10 ++ steps 0 40 ++ steps 2 40.
+Example three_threads_finish :
+  reg_free sro1 lookup_prog register_prog (init R1) tr_three = true /\
+  forallb (fun j => match threads (exec sro1 lookup_prog register_prog tr_three (init R1)) j with
+                    | Some t => is_nil (cont t) | None => false end) [0; 1; 2] = true /\
+  (exists t0, threads (exec sro1 lookup_prog register_prog (SpawnLookup k1 :: repeat (Step 0) 40) (init R1)) 0 = Some t0
+              /\ cont t0 = [] /\ tres t0 = Some [1%N]).
+Proof.
+  vm_compute. split; [reflexivity|]. split; [reflexivity|].
+  eexists. split; [reflexivity|]. split; reflexivity.
+Qed.
